@@ -212,15 +212,21 @@ func serializeRSAPrivateKey(w io.Writer, priv *rsa.PrivateKey) error {
 	if err != nil {
 		return err
 	}
-	err = writeBig(w, priv.Primes[1])
+	// RFC 4880, section 5.5.3 stores the primes as p < q followed by
+	// u = p^-1 mod q.
+	p, q := priv.Primes[1], priv.Primes[0]
+	if p.Cmp(q) > 0 {
+		p, q = q, p
+	}
+	err = writeBig(w, p)
 	if err != nil {
 		return err
 	}
-	err = writeBig(w, priv.Primes[0])
+	err = writeBig(w, q)
 	if err != nil {
 		return err
 	}
-	return writeBig(w, priv.Precomputed.Qinv)
+	return writeBig(w, new(big.Int).ModInverse(p, q))
 }
 
 func serializeDSAPrivateKey(w io.Writer, priv *dsa.PrivateKey) error {
